@@ -724,6 +724,28 @@ def gen_fz(r, over=False, quick=True):
     return d
 
 
+def gen_fz_foot(r):
+    """directed (seeded change C13-18): an operating point at the very foot of a lone triangular set in both inputs with the
+    algebraic product - every firing strength is far below machine epsilon although the memberships are far above it; the
+    weighted mean is still that of the active consequents (all of one sign here, so base + 0 is outside their range)"""
+    n = r.choice([2, 3, 5])
+    L = 3.0
+    h = 2 * L / (n - 1)
+    w = h * 0.4
+    me = []
+    for i in range(n):
+        c = -L + i * h
+        me += [8.0, c - w, c, c + w]
+    c = -L + r.randrange(n) * h
+    delta = r.choice([1e-9, 3e-9, 2e-10, 6e-9, 1e-8])
+    e = (c - w) + w * delta if r.random() < 0.5 else (c + w) - w * delta
+    sg = r.choice([1.0, -1.0])
+    return {"k": "fz", "split": False, "nrule": n, "nfuzz": n, "opr": 2, "mask": 7, "me": me, "mec": list(me),
+            "mkp": [sg * r.uniform(1, 9) for _ in range(n * n)], "mki": [sg * r.uniform(0.1, 0.5) for _ in range(n * n)],
+            "mkd": [sg * r.uniform(0.01, 0.1) for _ in range(n * n)], "gains": [10.0, 1.0, 0.1],
+            "lim": [100.0, -100.0, 50.0, -50.0], "ops": [[r.choice([1, 2]), float(e), 0.0]]}
+
+
 def gen_wk(r):
     n = r.randint(0, 6)
     ns = r.randint(0, 6)
@@ -763,6 +785,9 @@ def gen_cases(ctx, tag="cases", scale=1.0):
         cases.append(gen_wk(r))
     for i in range(int((320 if q else 4200) * scale)):
         cases.append(gen_fz(r, over=(i % 8 == 7), quick=q))
+    rf = ctx.rng.__class__(ctx.subseed("c13-foot-" + tag))
+    for _ in range(int((12 if q else 120) * scale)):
+        cases.append(gen_fz_foot(rf))
     return cases
 
 
